@@ -101,6 +101,35 @@ def run(tier, replay=None):
         cc = shrink_graph(c, still_bad) if bad else c
         res.violation("C04 %s with %d ranks: %s" % (e, P, why), {"kind": "mpi", "P": P, "entry": e, "pseed": ps, "n": cc[0], "edges": cc[1], "scale": cc[2], "why": why, "count": len(bad) + len(viols)})
     elif diffs or (lean_ok and len(oks) != nruns):
+        # focused search: fresh weighted graphs (unique optima) through the disagreeing entry points / rank counts with
+        # per-rank heap layouts, and relabelled copies of the disagreeing graphs
+        targets = []
+        for d in diffs:
+            if len(d) > 1 and d[1] in jobs:
+                c, e, ps, P = jobs[d[1]]
+                if (e, P) not in targets: targets.append((e, P))
+        tried = 0
+        for (e, P) in targets[:4]:
+            for rnd in range(6):
+                fb = {}
+                for t in range(150):
+                    n = r.randint(6, 11)
+                    E = [(x, y) for x in range(n) for y in range(x + 1, n) if r.random() < r.choice([.3, .45, .6])]
+                    r.shuffle(E)
+                    WE = [((x, y, r.randint(1, 30)) if r.random() < .5 else (y, x, r.randint(1, 30))) for (x, y) in E]
+                    fb["f%d" % t] = ((n, WE, 0, "focused-random"), e, r.getrandbits(30) + 1)
+                rcf, outf, _ = mpirun(binary, P, "".join(render(j, c, ee, ps) for j, (c, ee, ps) in fb.items()), timeout=600)
+                bf = parse_blocks(outf)
+                for j, (c, ee, ps) in fb.items():
+                    if j not in bf: continue
+                    tried += 1
+                    why = judge(c, bf[j], P, mcb_weight_oracle(c[0], c[1]))
+                    if why:
+                        res.coverage["focused_search_runs"] = tried
+                        res.violation("C04 %s with %d ranks: %s (found by the focused search after the correspondence broke: %s)" % (ee, P, why, " ".join(diffs[0][2:])[:200]),
+                                      {"kind": "mpi", "P": P, "entry": ee, "pseed": ps, "n": c[0], "edges": c[1], "scale": c[2], "why": why})
+                        return res.finish()
+        res.coverage["focused_search_runs"] = tried
         res.violation("trace validation of the MPI runs broken (Model/Mpi.lean, Model/DePina.lean vs mpi/*.hpp); the oracle still holds on all %d runs" % nruns,
                       {"kind": "correspondence", "first": diffs[:3], "validated": len(oks)}, found=False)
     return res.finish()
